@@ -113,12 +113,22 @@ func genC13(r *rand.Rand) *c13Case {
 	if r.Intn(12) == 0 {
 		cs.Code = choose(r, []string{"200", "299", "400", "404", "0", "-1", "abc", "3000", "99999999999999999999", "9223372036854775807", "301.0"})
 	}
-	cs.Strip = choose(r, []string{"", "", "/p", "/p/q"})
-	cs.Prepend = choose(r, []string{"", "", "/pre", "/pre/x"})
+	cs.Strip = choose(r, []string{"", "", "/p", "/p/q", "/p/", "/p/q"})
+	cs.Prepend = choose(r, []string{"", "", "/pre", "/pre/x", "/l\u00e4s"})
 	cs.Host = choose(r, []string{"red.test", "red.test:8080", "RED.test", "red.test:80"})
 	var b strings.Builder
 	if cs.Strip != "" && r.Intn(5) > 0 {
-		b.WriteString(cs.Strip)
+		sp := cs.Strip
+		if r.Intn(5) == 0 {
+			// the client writes a letter of the prefix as an escape
+			i := 1 + 2*r.Intn(len(sp)/2)
+			sp = sp[:i] + fmt.Sprintf("%%%02X", sp[i]) + sp[i+1:]
+		}
+		b.WriteString(sp)
+		if r.Intn(3) == 0 {
+			// what follows the prefix does not start with a slash: the prefix ends in one, or cuts a segment in two
+			b.WriteString(choose(r, []string{"users", "x%2Fy", "q"}))
+		}
 	}
 	for n := r.Intn(4); n > 0; n-- {
 		b.WriteString("/" + choose(r, c13PathSegs))
@@ -169,10 +179,20 @@ func c13Expect(cs *c13Case, escPath string) string {
 	usesPath := strings.Contains(path, "$path")
 	if usesPath {
 		p := escPath
-		if cs.Strip != "" && strings.HasPrefix(p, cs.Strip) {
-			p = p[len(cs.Strip):]
+		if dec, err := url.PathUnescape(p); cs.Strip != "" && err == nil && strings.HasPrefix(dec, cs.Strip) {
+			// as much of the encoded path as decodes to the prefix goes; what is left is a path again
+			for n := len(cs.Strip); n > 0 && p != ""; n-- {
+				if p[0] == '%' && len(p) >= 3 {
+					p = p[3:]
+				} else {
+					p = p[1:]
+				}
+			}
+			if p != "" && !strings.HasPrefix(p, "/") {
+				p = "/" + p
+			}
 		}
-		p = cs.Prepend + p
+		p = (&url.URL{Path: cs.Prepend}).EscapedPath() + p
 		path = strings.Replace(path, "/$path", "$path", 1)
 		path = strings.Replace(path, "$path", p, 1)
 		if query == "" {
